@@ -54,6 +54,23 @@ def eligible_edits(mm: MetaModel, d, p) -> List[Tuple[str, Any]]:
             for v in (max(vals) + 1, min(vals) - 1, 0, 10**6):
                 if v not in vals:
                     out.append(("enum", v))
+    # a closed enumeration as an alternative of a union-typed property (directly or through an alias): a value of the enumeration's base
+    # type outside the enumeration that no other alternative admits either is the same single edit (added after seed C11-11)
+    ut = t
+    if ut["kind"] == "reference" and ut["name"] in getattr(mm, "aliases", {}):
+        ut = mm.aliases[ut["name"]]["type"]
+    if ut["kind"] == "or":
+        for alt in ut["items"]:
+            if alt["kind"] == "reference" and alt["name"] in mm.enumerations and not mm.is_open_enum(alt["name"]):
+                e = mm.enumerations[alt["name"]]
+                vals = [v["value"] for v in e["values"]]
+                if e["type"]["name"] == "string":
+                    cands = ["__not_a_member__", vals[0] + "x", vals[0].upper() if vals[0].upper() != vals[0] else vals[0].lower(), ""]
+                else:
+                    cands = [max(vals) + 1, min(vals) - 1, 10**6, -7]
+                for v in dict.fromkeys(cands):
+                    if v not in vals and not mm.valid(t, v, False):
+                        out.append(("enum-in-union", v))
     if t["kind"] == "stringLiteral":
         lit = t["value"]
         for v in (lit + "x", "x" + lit, lit[:-1], lit[1:], "", lit.upper() if lit.upper() != lit else lit.lower(), "other"):
